@@ -111,7 +111,7 @@ def evaluate(spec, params, prop_ids, want_lockstep=True):
             f, _ = free_run(drv, model, params, pre, final)
             if f:
                 res["dis"].append(dict(phase="free-run", fields=f, time=None))
-    if "C05" in prop_ids and exc is None and final["status"] == 2:
+    if "C05" in prop_ids and exc is None and final["status"] == 2 and not spec.get("decimal"):
         # the real run did not complete: what does the reference semantics (the validated model) do
         # from the same start?  (consulted by the liveness search of C05 only)
         try:
